@@ -44,6 +44,9 @@ def guard_set(prog, f, bb, _depth=0):
                     src = ones if f.edge_dominates(b, ts, bb) else (zeros if f.edge_dominates(b, fs, bb) else None)
                     if src is not None and len(src) == 1 and src[0] != bb:
                         out.update(g for g in guard_set(prog, f, src[0], _depth + 1) if g != '<unreachable>')
+                    elif src is not None and f.local_name(p['l']) and len(ones) >= 1 and len(zeros) >= 2:
+                        # a state flag that is set and reset along the way (`is_escaped`, `last_was_asterisk`): the condition is the flag itself
+                        out.add(('flag:%s' if src is ones else '!(flag:%s)') % f.local_name(p['l']))
             continue
         if f.edge_dominates(b, ts, bb):
             out.add(ex)
@@ -84,6 +87,9 @@ RULE_CRATES = ('slicec',)
 
 
 def _rv(f, rv):
+    if rv['k'] == 'agg':
+        from helpers import _vexpr_def
+        return _vexpr_def(f, ('assign', 0, 0, rv), 12, set())
     if rv['k'] == 'bin':
         a, b = vexpr(f, rv['a'], depth=20), vexpr(f, rv['b'], depth=20)
         return '%s(%s,%s)' % (rv['op'], a, b)
